@@ -484,8 +484,9 @@ def run(ctx):
                 ctx.log(f'NOTE: known finding key={BMAT_KEY} is stale: the refutation no longer holds for the regenerated bmat loop')
     ctx.prove()
     correspond(ctx, gen_ok)
-    from .. import c19_oracle
+    from .. import c19_oracle, c01_api
     c19_oracle.run(ctx)
+    c01_api.run_c19(ctx)
 
 
 def replay(ctx, data):
